@@ -2,6 +2,7 @@
 import os
 import subprocess
 import sx
+from sx import Q
 
 HERE = os.path.dirname(os.path.abspath(__file__))
 DRIVER = os.path.join(HERE, '..', 'driver', 'driver')
@@ -33,6 +34,17 @@ def run_requests(reqs, chunk=400):
 
 def load_req(case):
     return ['load_oma' if getattr(case, 'oma', False) else 'load', case.use_internal, case.tree.sx(), case.doc_sx()]
+
+
+def hist_sx(h):
+    if h[0] == 'G':
+        return ['G', Q(h[1]), list(h[2])]
+    return ['H', list(h[1]), [[hist_sx(l[1])] if l[0] == 'O' else [hist_sx(m) for m in l[1]] for l in h[2]]]
+
+
+def consistent_req(case):
+    """does the extracted, proved-sound check SpellCheck.consistentb accept the case (with its ordered histories)?"""
+    return ['consistent', case.use_internal, case.tree.sx(), case.doc_sx(), [hist_sx(h) for h in case.ohists]]
 
 
 def reply_forest(rep):
